@@ -77,7 +77,7 @@ class Sym:
         args = tuple(self.operand(a) for a in t["args"])
         if len(args) == 1 and is_identity_fn(self.f.prog, c):
             return args[0]
-        return ("call", c, args, blk)
+        return ("call", c, args, blk, tuple(t.get("gargs") or ()))
 
     def place(self, p):
         e = self.local(p["l"])
@@ -138,6 +138,8 @@ class Sym:
             nm = kd.get("adt") or kd.get("agg")
             if kd.get("adt"):
                 nm = nm + "::" + kd["variant"]
+            elif kd.get("def"):
+                nm = "Closure:" + kd["def"]
             return ("agg", nm, tuple(self.operand(x) for x in r["ops"]))
         if k == "discr":
             return ("discr", self.place(r["pl"]))
@@ -306,13 +308,38 @@ def controlling_edges(f, target):
     return out
 
 
-def path_conds(f, sy, target):
-    """list of necessary conditions (expr, rel, values) for reaching block `target`"""
+def path_conds(f, sy, target, _depth=0):
+    """list of necessary conditions (expr, rel, values, edge) for reaching block `target`.
+    A condition on a multi-assigned boolean temporary (the result of `a || b`, `a && b`) is expanded: if only one
+    definition can yield the required truth value, the conditions of that definition's block and its value are added."""
     out = []
     for s, e in controlling_edges(f, target):
         c = edge_cond(f, sy, s, e)
-        if c is not None:
-            out.append(c + ((s, e),))
+        if c is None:
+            continue
+        out.append(c + ((s, e),))
+        if _depth < 4 and c[0][0] == "local":
+            a = bool_atom(c)
+            if a and a[0] == "truth":
+                l = a[1][1]
+                want = a[2]
+                prod = []
+                for (blk, idx, kind, x) in f.defs.get(l, []):
+                    if kind == "rv":
+                        v = sy.rvalue(x)
+                        if v[0] == "const" and v[1] in (0, 1) and v[2] is None:
+                            if bool(v[1]) == want:
+                                prod.append((blk, None))
+                        else:
+                            prod.append((blk, v))
+                    else:
+                        prod.append((blk, sy.call(x, blk)))
+                if len(prod) == 1:
+                    blk, v = prod[0]
+                    out += path_conds(f, sy, blk, _depth + 1)
+                    if v is not None:
+                        out.append((v, "in" if want else "notin", (1,) if want else (1,), (blk, blk)) if False else
+                                   (v, "notin", (0,), (blk, blk)) if want else (v, "in", (0,), (blk, blk)))
     return out
 
 
@@ -446,7 +473,8 @@ def canon(e, depth=0):
     if k == "index":
         return "%s[%s]" % (canon(e[1], d), canon(e[2], d))
     if k == "call":
-        return "%s(%s)" % (e[1], ",".join(canon(a, d) for a in e[2]))
+        ga = "::<%s>" % ",".join(e[4]) if len(e) > 4 and e[4] and not e[1].startswith(("core::", "<", "std::", "alloc::")) else ""
+        return "%s%s(%s)" % (e[1], ga, ",".join(canon(a, d) for a in e[2]))
     if k == "discr":
         return "discr(%s)" % canon(e[1], d)
     if k == "agg":
